@@ -6,9 +6,11 @@ Kinds == {"sound", "resume", "sound_vol", "track_vol", "main_vol", "listener", "
           "clock_speed_older", "clock_speed_younger"}
 Tweened == Kinds \ {"sound", "resume"}
 VARIABLE sc
-Init == sc \in [what : Kinds, w : 1..3, d : {0, 2}]
+\* paused: the clock has passed the tick and is paused when the thing is scheduled (see P_C05S)
+Init == sc \in [what : Kinds, w : 1..3, d : {0, 2}, paused : BOOLEAN]
 Next == UNCHANGED sc
 Spec == Init /\ [][Next]_sc
-Meaningful == sc.d > 0 => sc.what \in Tweened
+Meaningful == /\ sc.d > 0 => sc.what \in Tweened
+              /\ sc.paused => (sc.what \notin {"clock_speed_older", "clock_speed_younger"} /\ sc.w <= 2)
 Dump == Meaningful => PrintT(<<"BEHAVIOUR", ToJson(<<sc>>)>>)
 =============================================================================
